@@ -3,10 +3,17 @@
   `{"op": ..., ...}`; unknown ops and malformed lines answer `{"bad": reason}` (never a default).
 -/
 import TypelibModel.Drv.Core
+import TypelibModel.Drv.Binding
+import TypelibModel.Drv.Future
+import TypelibModel.Drv.Ctx
+import TypelibModel.Drv.Slotted
+import TypelibModel.Drv.Graph
+import TypelibModel.Drv.Inspect
+import TypelibModel.Drv.Cache
 open Lean Typelib.Drv
 
 def handlers : List (St → String → Json → Option (Except String (St × Json))) :=
-  [handleCore]
+  [handleCore, handleBinding, handleFuture, handleCtx, handleSlotted, handleGraph, handleInspect, handleCache]
 
 def step (st : St) (line : String) : St × String :=
   match Json.parse line with
